@@ -510,6 +510,9 @@ func c03RunCase(c *Ctx, sym c03Sym, cs c03Case, geoms bool) {
 	if !geoms {
 		return
 	}
+	if c03IsUPC(sym.name) {
+		c03TheoremBoundary(c, sym, cs, mods, in)
+	}
 	want := "ok " + sym.format.String() + " " + hexs([]byte(cs.want))
 	natural := len(mods) + sym.margin
 	for gi, g := range c03Geoms(natural) {
@@ -571,6 +574,8 @@ func c03RunCase(c *Ctx, sym c03Sym, cs c03Case, geoms bool) {
 		c.Note(fmt.Sprintf("geom:%d:%s", gi, outs["hybrid"][:c10Min(len(outs["hybrid"]), 6)]))
 		// ---- row-level decoder vs the faithful model (UPC/EAN) ----
 		if c03IsUPC(sym.name) {
+			// does the writer's own rendering meet the hypotheses of upcean_read_write (quiet zones >= 3s / > g*s)?
+			c.Note(fmt.Sprintf("thm-hyp:%s:geom%d:%v", sym.name, gi, c03TheoremHyp(sym.name, row, len(mods))))
 			rowArr := bm.GetRow(bm.GetHeight()/2, nil)
 			o, _ := c10ReadRow(c10RD(sym.reader(cs)), rowArr, nil)
 			c.Cmp("rowread", fmt.Sprintf("c03 upcread %s %s", sym.name, bitsStr(row)), c10StripFormat(o))
@@ -762,7 +767,8 @@ func runC03(c *Ctx) {
 	c.res.Rule = "per symbology: boundary lengths, every alphabet / ASCII character, every UPC-E rule digit and EAN-13 leading digit, every Codabar start/stop pair, " +
 		"every Code 128 class sequence (digit pair, digit, upper, lower, control) up to length 4 (thorough: 6), each forced code set, random contents; " +
 		"x 6 geometries (width 0 / natural / 2x / 3x+7, height 1 / 50, margin default / larger) x 2 binarizers; separate stream of contents the writers must refuse; " +
-		"module-level decoders vs real readers on independently drawn (also invalid) symbols; non-trivial = distinct op/oracle input"
+		"module-level decoders vs real readers on independently drawn (also invalid) symbols; UPC/EAN: every content also as a synthetic row at the quiet-zone boundaries of upcean_read_write " +
+		"(left = 3s, right = g*s+1, scales 1-5: must read; one pixel less: model comparison only); non-trivial = distinct op/oracle input"
 	c03Tables(c)
 	n := c.Pick(300, 4000)
 	syms := c03Syms()
